@@ -65,7 +65,8 @@ def check(ctx):
         ctx.ob('R1', fp, e['node'], True if ok else (None if a is None or a.geo is None else False),
                'Cartesian bond vectors in the trajectory lattice' if ok else f'Cartesian conversion of {geo_text(a.geo if a is not None else None)}')
     if not uniq_events(it, {'to_cart'}, under(fp.qualname)):
-        ctx.ob('R1', fp, 'Cartesian conversion', False, 'bond vectors are not converted to Cartesian coordinates')
+        from .common import absent
+        ctx.ob('R1', fp, 'Cartesian conversion', absent(it, fp.qualname), 'bond vectors are not converted to Cartesian coordinates')
     check_axes(ctx)
     check_spherical(ctx)
     check_autocorr(ctx)
